@@ -32,7 +32,9 @@ sys.path.insert(0, os.path.join(REPO, "conf"))
 
 IFACES = {"access": 2, "core": 3, "mgmt": 4}  # mgmt is not managed
 MANAGED = ["access", "core"]
-PREFIXES = [("0.0.0.0", 0), ("10.0.0.0", 8), ("10.1.0.0", 16), ("192.168.5.0", 24), ("172.16.0.0", 12), ("8.8.8.8", 32)]
+# two pairs share their network address and differ in length only (10.0.0.0/8 and /16, 0.0.0.0/0 and /1): a route is
+# identified by prefix AND length
+PREFIXES = [("0.0.0.0", 0), ("10.0.0.0", 8), ("10.0.0.0", 16), ("10.1.0.0", 16), ("192.168.5.0", 24), ("172.16.0.0", 12), ("8.8.8.8", 32), ("0.0.0.0", 1)]
 NEXTHOPS = {
     "access": ["198.18.0.2", "198.18.0.3", "198.18.0.4"],
     "core": ["198.19.0.2", "198.19.0.3", "198.19.0.4"],
@@ -301,7 +303,7 @@ def worker(seed, n, outpath):
            "samples": stats["samples"], "excluded": {}, "assumptions": [
                "pyroute2/pybess/scapy are stubs; the BESS stand-in refuses deleting missing routes/modules and connecting an occupied gate, like bessd",
                "neighbour resolution = the MAC appears in the ARP table and RTM_NEWNEIGH is delivered, atomically"],
-           "rule": "Hypothesis RuleBasedStateMachine: RTM_NEWROUTE (prefix absent), RTM_DELROUTE (prefix present, also while unresolved), neighbour resolution and repeated RTM_NEWNEIGH over 2 managed + 1 unmanaged interface, 6 prefixes incl. the default route, 3 next hops per interface, delivered through the registered netlink handlers; the module graph is rebuilt from the BESS stand-in after every step; non-trivial = >=2 routes through one next hop with at least one added while unresolved, and a deletion; distinct by step list",
+           "rule": "Hypothesis RuleBasedStateMachine: RTM_NEWROUTE (prefix absent), RTM_DELROUTE (prefix present, also while unresolved), neighbour resolution and repeated RTM_NEWNEIGH over 2 managed + 1 unmanaged interface, 8 prefixes incl. the default route and two pairs that share a network address and differ in length only, 3 next hops per interface, delivered through the registered netlink handlers; the module graph is rebuilt from the BESS stand-in after every step; non-trivial = >=2 routes through one next hop with at least one added while unresolved, and a deletion; distinct by step list",
            "failed": failed, "fail": stats["fail"], "extra": {}}
     json.dump(out, open(outpath, "w"))
     return 1 if failed else 0
